@@ -125,6 +125,13 @@ def generate(rng, tier):
                     cur = rng.randrange(nt)
                 sched.append(cur)
         out.append(Case('spin ' + ' '.join(sc) + ' ; ' + ' ; '.join(f't{t}' for t in sched), H, ('spin', 'random')))
+    # the holder releases while the waiter is at every position around the end of its fast loop (100 iterations), its
+    # yield and its sleep: lock() has four places where it can acquire (first exchange, try_lock in the fast loop, try_lock after
+    # the yield, first exchange of the next round) and each must be an exchange that read "free"
+    for n in range(94, 114):
+        for sc in ('L L', 'L LT', 'LL L'):
+            out.append(Case(f'spin {sc} ; t0 ; t0 ; t0 ; ' + ' ; '.join(['t1'] * n) + ' ; t0 ; t0 ; t0 ; ' + ' ; '.join(['t1'] * 6 + ['t0'] * 4 + ['t1'] * 4),
+                            H, ('spin', 'handover-around-yield')))
     # a waiter that goes all the way through the fast loop, yield and sleep while the lock is held
     out.append(Case('spin L L ; t0 ; t0 ; t0 ; t1 ; t1 ; ' + ' ; '.join(['t1'] * 230) + ' ; t0 ; t0 ; t1 ; t1 ; t1 ; t1', H, ('spin', 'long-wait')))
     return out
